@@ -83,6 +83,7 @@ pub fn run(ctx: &Ctx, rep: &mut Report) {
         let mut ever: BTreeSet<usize> = BTreeSet::new();
         let mut log_len: u32 = 0;
         let mut alive = true;
+        let mut crowded = false;
         for _ in 0..40 {
             if !alive {
                 break;
@@ -97,6 +98,23 @@ pub fn run(ctx: &Ctx, rep: &mut Report) {
             if rng.chance(1, 25) && u.upgrade_and_migrate(&ops_c).is_ok() {
                 rep.step("the operators contract is upgraded to the same code and migrated".into());
                 rep.count("upgrade-and-migrate");
+            }
+            // once in a while the owner enrols 18 further operators in one go (they take no other
+            // part): what add, remove and execute do for the candidates must not depend on how many
+            // operators there are
+            if !crowded && rng.chance(1, 30) {
+                let fillers: Vec<Address> = (0..18).map(|_| u.principal()).collect();
+                let oc2 = ops_c.clone();
+                u.setup(move |env| {
+                    let c = AxelarOperatorsClient::new(env, &oc2);
+                    for f in &fillers {
+                        let _ = c.try_add_operator(f);
+                    }
+                });
+                u.skip_events();
+                crowded = true;
+                rep.count("eighteen-further-operators-enrolled");
+                rep.step("the owner enrols 18 further operators".into());
             }
             let choice = rng.weighted(&[3, 3, 1, 8]);
             let ci = rng.usize(cands.len());
